@@ -439,10 +439,20 @@ def r14(ctx, R, rule='R1.4'):
                 newv = src(l1.target.elts[1]) if isinstance(
                     l1.target, ast.Tuple) and len(
                         l1.target.elts) == 2 else None
+                def _unconditional(x):
+                    # not under a test inside the loop that walks the new
+                    # list ("if k not in d" keeps the old entry)
+                    cur = getattr(x, '_parent', None)
+                    while cur is not None and cur is not l1:
+                        if isinstance(cur, ast.For):
+                            return not C.conds(x, cur, implicit=True)
+                        cur = getattr(cur, '_parent', None)
+                    return True
                 stores = [x for x in own_nodes_of(l1)
                           if isinstance(x, ast.Assign) and any(
                               isinstance(t, ast.Subscript) and src(
-                                  t.value) == nm for t in x.targets)]
+                                  t.value) == nm for t in x.targets)
+                          and _unconditional(x)]
                 updates = [x for x in own_nodes_of(l1)
                            if isinstance(x, ast.Call) and isinstance(
                                x.func, ast.Attribute) and x.func.attr ==
